@@ -327,7 +327,17 @@ class PolyEnv:
         if isinstance(e, ast.Constant):
             return repr(e.value)
         if isinstance(e, ast.IfExp):
-            return f"ifexp({self._arg(e.test)}, {self._arg(e.body)}, {self._arg(e.orelse)})"
+            test, body, orelse = e.test, e.body, e.orelse
+            while True:   # negated tests select the other branch
+                if isinstance(test, ast.UnaryOp) and isinstance(test.op, ast.Not):
+                    test, body, orelse = test.operand, orelse, body
+                    continue
+                if isinstance(test, ast.Compare) and len(test.ops) == 1 and isinstance(test.ops[0], (ast.NotEq, ast.IsNot, ast.NotIn)):
+                    pos = {ast.NotEq: ast.Eq, ast.IsNot: ast.Is, ast.NotIn: ast.In}[type(test.ops[0])]
+                    test, body, orelse = ast.Compare(left=test.left, ops=[pos()], comparators=test.comparators), orelse, body
+                    continue
+                break
+            return f"ifexp({self._arg(test)}, {self._arg(body)}, {self._arg(orelse)})"
         if isinstance(e, ast.Compare):
             if len(e.ops) == 1:
                 # a > b is b < a; the operands of == / != are unordered
@@ -347,6 +357,20 @@ class PolyEnv:
             return "*" + self._arg(e.value)
         if isinstance(e, (ast.ListComp, ast.SetComp, ast.GeneratorExp, ast.DictComp)):
             return self._comprehension(e)
+        if isinstance(e, ast.Dict) and all(k is not None for k in e.keys):
+            items = sorted(f"{self._arg(k)}: {self._arg(v)}" for k, v in zip(e.keys, e.values))
+            return "{" + ", ".join(items) + "}"
+        if isinstance(e, ast.List):
+            return "[" + ", ".join(self._arg(x) for x in e.elts) + "]"
+        if isinstance(e, ast.Set):
+            return "{" + ", ".join(sorted(self._arg(x) for x in e.elts)) + "}"
+        if isinstance(e, ast.JoinedStr):
+            return " ".join(ast.unparse(e).split())
+        if isinstance(e, ast.BoolOp):
+            op = "and" if isinstance(e.op, ast.And) else "or"
+            return f" {op} ".join(f"({self._arg(v)})" for v in e.values)
+        if isinstance(e, ast.UnaryOp) and isinstance(e.op, ast.Not):
+            return f"not ({self._arg(e.operand)})"
         return " ".join(ast.unparse(e).split())
 
     def _comprehension(self, e: ast.AST) -> str:
